@@ -431,3 +431,12 @@ def special_model_st(draw, cplx=None, max_modes=4, beta_lo=0.1, beta_hi=200.0, s
 def any_model_st(special_share=0.3, **kw):
     skw = {k: v for k, v in kw.items() if k in ("cplx", "max_modes", "beta_lo", "beta_hi", "symm_modes")}
     return st.one_of(model_st(**kw), model_st(**kw), special_model_st(**skw)) if special_share else model_st(**kw)
+
+
+def susc_quad_st(N):
+    """(a,b,c,d) for A=c+_a c_b, B=c+_c c_d: density-density, A=B^+ (the only block-changing pairs with a non-zero response), random"""
+    ix = st.integers(0, N - 1)
+    return st.one_of(st.tuples(ix, ix).map(lambda t: (t[0], t[0], t[1], t[1])),
+                     st.tuples(ix, ix).map(lambda t: (t[0], t[1], t[1], t[0])),
+                     st.tuples(ix, ix).map(lambda t: (t[0], t[1], t[1], t[0])),
+                     st.tuples(ix, ix, ix, ix))
